@@ -13,6 +13,7 @@ a due timer promptly is the runtime's (E8) — in the model the timer step is EN
 deadline on and suite `system` observes it firing at exactly the deadline under virtual time.
 -/
 import Tramp.Props.Sys
+import Tramp.Proofs.SysDeadline
 
 namespace Tramp
 
@@ -51,6 +52,34 @@ theorem c11_restart_budget (c : Cfg) (s : SState) (aid g t g' : Nat) (q : SReq) 
 /-- the deadline of a waiting lifecycle is never more than one MPP timeout ahead of the clock -/
 def DeadlineOk (c : Cfg) (s : SState) : Prop :=
   ∀ e o d, s.active = some (e, o) → o.pc = .waitHtlcs d → d ≤ s.mono + c.mppTimeout
+
+/-- In EVERY state the plugin can reach — whatever was scheduled, crashed or made to fail, read
+    faults included — the deadline of a waiting lifecycle is at most one MPP timeout ahead of the
+    clock: a restart, a retry or a late HTLC never re-arms or extends the timer
+    (`dl_step`: inductive under every action). -/
+theorem c11_deadline_bound (c : Cfg) (acts : List SAct) (s : SState)
+    (hr : srun c .current SState.init acts = some s) : DeadlineOk c s := by
+  intro e o d ha hpc
+  have := dl_run c acts SState.init s (dl_init c) hr e o ha
+  rw [hpc] at this; exact this
+
+/-- …hence once one MPP timeout has passed on the clock the timer step is enabled, and taking it
+    answers every held HTLC with temporary_trampoline_failure (C06: "no later than one MPP timeout
+    after the plugin has read the payment's stored state"; promptness of tokio's timer is E8). -/
+theorem c11_due_after_one_timeout (c : Cfg) (acts : List SAct) (s : SState) (e : PEntry) (o : Owner) (d dt : Nat)
+    (hr : srun c .current SState.init acts = some s) (hact : s.active = some (e, o)) (hpc : o.pc = .waitHtlcs d)
+    (hdt : c.mppTimeout ≤ dt) :
+    sstep c .current { s with mono := s.mono + dt } .timerFire =
+      some ({ s with mono := s.mono + dt, active := none }, e.listeners.map (fun i => Out.resp i (.fail .ttf))) := by
+  have hb := c11_deadline_bound c acts s hr e o d hact hpc
+  have hdue : s.mono + dt ≥ d := by omega
+  simp [sstep, hact, hpc, hdue, respAll]
+
+/-- non-vacuity: a partial HTLC whose stored state was read is waiting, with its deadline 60 s ahead -/
+example : ∃ s e o, srun demoCfg .current SState.init
+    [.arrive ⟨1, 1000000, true⟩ 500000 1300 300 1006000, .serve .owner .dsList, .deliver .owner .dsList] = some s ∧
+    s.active = some (e, o) ∧ o.pc = .waitHtlcs 60 := by
+  refine ⟨_, _, _, rfl, rfl, rfl⟩
 
 theorem afterRestartWait_no_ttf (aid g t : Nat) (w : WPc) :
     (afterRestartWait aid g t w ≠ .finish (.fail .ttf)) ∧ (∀ b, afterRestartWait aid g t w ≠ .finishBk (.fail .ttf) b) := by
